@@ -47,5 +47,7 @@ def run(ctx):
     S.r02_2_attrset(ctx, 'R01.12')
     R3.r01_13_extras_partition(ctx, 'R01.13')
     R3.r03_15_tag_class_direction(ctx, 'R01.14')
+    # one node reached by two references of different expected types is written in place per reference (known finding F19b)
+    R3.r18_10_reference_owned_node(ctx, 'R01.15')
     from . import memo_rules as M
     M.memo_sound(ctx, 'R01.M')
